@@ -186,11 +186,13 @@ def _canon(a):
     return a[np.lexsort(a.T[::-1])] if a.ndim == 2 else np.sort(a)
 
 
-def body_decisions(ctx, det, seed):
-    """original vs row-permuted batch sequence: equal decision sequence"""
+def body_decisions(ctx, det, seed, sizes=None):
+    """original vs row-permuted batch sequence: equal decision sequence; `sizes` = rows per batch (cycled), so that
+    test batches larger and smaller than the current reference occur (seed C18-8 cut a batch to the reference's size)"""
     rs = np.random.RandomState(seed)
     nb = 6 if det == "HDM" else 3  # HDM can alarm from the third batch of an epoch on: leave room for a second epoch
-    batches = [np.round(rs.rand(4, 2) * 6 + (k == 2) * 2, 2) for k in range(nb + 1)]
+    sizes = sizes or [4]
+    batches = [np.round(rs.rand(sizes[k % len(sizes)], 2) * 6 + (k == 2) * 2, 2) for k in range(nb + 1)]
     permuted = [b[rs.permutation(len(b))] for b in batches]
     real_keyof = stubs.keyof
 
@@ -270,4 +272,6 @@ def jobs(tier):
         for seed in (1, 2):
             out.append(Job(f"decisions-{det}-{seed}", "checks.c18:body_decisions", {"det": det, "seed": seed}, expect=("checked",),
                            opts={"validate": 1}))
+        out.append(Job(f"decisions-{det}-uneven-batches", "checks.c18:body_decisions",
+                       {"det": det, "seed": 3, "sizes": [3, 6, 4, 7, 5]}, expect=("checked",), opts={"validate": 1}))
     return out
